@@ -85,7 +85,7 @@ func (td TypeDeclaration) objectSemanticTokens(ctx context.Context, funcExpr *hc
 		_, _, ok := rawObjectKey(item.KeyExpr)
 		if !ok {
 			// avoid reporting un-decodable key
-			return tokens
+			continue
 		}
 
 		tokens = append(tokens, lang.SemanticToken{
